@@ -385,6 +385,10 @@ func (pow *PoWConsensus) refreshDifficulty(tipHash []byte, nextHeight int64) (ui
 	}
 
 	// 原xuperchain逻辑
+	if actualTimeSpan < 1 {
+		// expectedTimeSpan/4 is 0 for short periods: a window of less than a second would divide by zero
+		actualTimeSpan = 1
+	}
 	difficulty := big.NewInt(1)
 	difficulty.Lsh(difficulty, uint(prevTargetBits))
 	difficulty.Mul(difficulty, big.NewInt(int64(expectedTimeSpan)))
